@@ -361,12 +361,23 @@ class History:
                     new = _coords(rng, (n,) if not oned else (n, 1), False)
             ncol = 1 if new.ndim == 1 else new.shape[1]
             self.tokens.append(f"sp {int(new.ndim == 1)} " + (fmat(new.reshape(len(new), ncol)) if len(new) else f"0 {ncol}"))
-            self.text.append(f"g.points = {_descr(new)}")
-            self.tags.append("setpoints:" + ("bad" if bad else how))
+            # a third of the valid reassignments update the grid's own array in place and then assign
+            # that very object again (p = g.points; p[...] = new; g.points = p): still a reassignment
+            same_obj = (not bad) and n > 0 and new.shape == old.shape and rng.random() < 0.35
+            if same_obj:
+                self.text.append(f"p = g.points; p[...] = {_descr(new)}; g.points = p")
+            else:
+                self.text.append(f"g.points = {_descr(new)}")
+            self.tags.append("setpoints:" + ("bad" if bad else how) + (":same-object" if same_obj else ""))
             self._mut_since = True
 
             def run():
-                g.points = new
+                if same_obj:
+                    cur = g.points
+                    cur[...] = new
+                    g.points = cur
+                else:
+                    g.points = new
                 return "D"
         elif k == "sw":
             bad = rng.random() < 0.1
@@ -646,8 +657,14 @@ def oracle(ctx: Ctx, budget: str):
                     # constructor rejects it): reassign inside the domain only
                     lo, hi = max(g.domain[0], -50.0), min(g.domain[1], 50.0)
                     new = rng.choice([pts[::-1].copy(), np.array([rng.uniform(lo, hi) for _ in range(n)])])
-                g.points = new
-                pre.append(f"g.points = {_descr(new)}")
+                if rng.random() < 0.35 and np.shape(new) == np.shape(pts) and n > 0:
+                    cur = g.points          # in-place update of the grid's own array, then the same
+                    cur[...] = new          # object is assigned again
+                    g.points = cur
+                    pre.append(f"p = g.points; p[...] = {_descr(new)}; g.points = p")
+                else:
+                    g.points = new
+                    pre.append(f"g.points = {_descr(new)}")
                 if not np.array_equal(np.asarray(g.points), new):
                     ctx.fail("oracle", f"{path}.points:setter", f"{path}: points read back differ from the assigned array", witness={"history": pre})
             elif k == "sw":
